@@ -15,7 +15,7 @@ use std::process::{Command, Stdio};
 use std::time::{Duration, Instant};
 use xml_schema_generator::{Element, Options, SortBy};
 
-pub const PARTS: &[&str] = &["bytes", "tokens", "edits", "edits2", "long", "wide", "trees", "depth", "reader", "reader-docs"];
+pub const PARTS: &[&str] = &["bytes", "tokens", "edits", "edits2", "long", "wide", "trees", "depth", "depth-unoptimised", "reader", "reader-docs"];
 
 fn tier_of(s: &str) -> Tier {
     if s == "thorough" {
@@ -202,6 +202,9 @@ pub fn wide_inputs(max_n: usize) -> Vec<Vec<u8>> {
                     if rot % 4 == 0 {
                         let kids: String = w.iter().map(|a| format!("<{} k=\"v\"/>", a)).collect();
                         out.push(format!("<r>{}</r>", kids).into_bytes());
+                        // the same element twice, the second time with its attributes in this other order
+                        let first: String = v.iter().map(|a| format!(" {}=\"v\"", a)).collect();
+                        out.push(format!("<r><p{}/><p{}/></r>", first, attrs).into_bytes());
                     }
                 }
             }
@@ -224,6 +227,13 @@ pub fn long_inputs(max_offset: usize) -> Vec<Vec<u8>> {
             out.push(format!("<r n{}=\"v\"><b/></r>", body).into_bytes());
             out.push(format!("<r><!--{}--><b>{}</b><b/></r>", body, body).into_bytes());
         }
+    }
+    // two siblings whose long names share a long prefix
+    for len in [30usize, 60, 62, 63, 64, 65, 66, 70, 100, 127, 128, 129, 255, 256, 257, 300] {
+        let l = "n".repeat(len);
+        out.push(format!("<r><{l}a/><{l}b/><{l}a k=\"v\"/></r>", l = l).into_bytes());
+        out.push(format!("<r {l}a=\"v\" {l}b=\"v\"><{l}a>t</{l}a></r>", l = l).into_bytes());
+        out.push(format!("<r><{l}A/><{l}a/></r>", l = l).into_bytes());
     }
     // sibling names that collide after normalisation and end in a long number
     for digits in 1..=24usize {
@@ -326,7 +336,7 @@ fn depth_exercise(bytes: &[u8]) -> Vec<String> {
 
 pub fn worker_len(part: &str, tier: Tier) -> u64 {
     match part {
-        "depth" => (MAX_DEPTH * DEPTH_TEMPLATES) as u64,
+        "depth" | "depth-unoptimised" => (MAX_DEPTH * DEPTH_TEMPLATES) as u64,
         _ => space(part, tier).map(|s| s.len()).unwrap_or(0),
     }
 }
@@ -422,9 +432,20 @@ struct ChildOutcome {
 }
 
 fn run_child(tier: Tier, part: &str, start: u64, end: u64, step: u64, timeout: Duration) -> ChildOutcome {
-    let exe = std::env::current_exe().expect("current exe");
+    // the unoptimised depth probe is a separate tiny binary (library built with opt-level 0)
+    let (exe, args): (std::path::PathBuf, Vec<String>) = if part == "depth-unoptimised" {
+        (
+            std::path::PathBuf::from(format!("{}/target/depthprobe/debug/depthprobe", crate::ctx::verif_dir())),
+            vec![start.to_string(), end.to_string()],
+        )
+    } else {
+        (
+            std::env::current_exe().expect("current exe"),
+            vec!["c07-worker".into(), tier.name().into(), part.into(), start.to_string(), end.to_string(), step.to_string()],
+        )
+    };
     let mut child = match Command::new(exe)
-        .args(["c07-worker", tier.name(), part, &start.to_string(), &end.to_string(), &step.to_string()])
+        .args(args)
         .stdin(Stdio::null())
         .stdout(Stdio::piped())
         .stderr(Stdio::null())
@@ -469,7 +490,7 @@ fn run_child(tier: Tier, part: &str, start: u64, end: u64, step: u64, timeout: D
 
 fn part_input(part: &str, tier: Tier, idx: u64) -> Vec<u8> {
     match part {
-        "depth" => depth_case(idx),
+        "depth" | "depth-unoptimised" => depth_case(idx),
         _ => space(part, tier).map(|s| s.get(idx)).unwrap_or_default(),
     }
 }
@@ -478,8 +499,8 @@ pub fn run(ctx: &Ctx) {
     ctx.set("exhaustive", json!(true));
     let tier = ctx.tier;
     let parts: Vec<&str> = match tier {
-        Tier::Quick => vec!["bytes", "tokens", "edits", "long", "wide", "trees", "depth", "reader", "reader-docs"],
-        Tier::Thorough => vec!["bytes", "tokens", "edits", "edits2", "long", "wide", "trees", "depth", "reader", "reader-docs"],
+        Tier::Quick => vec!["bytes", "tokens", "edits", "long", "wide", "trees", "depth", "depth-unoptimised", "reader", "reader-docs"],
+        Tier::Thorough => vec!["bytes", "tokens", "edits", "edits2", "long", "wide", "trees", "depth", "depth-unoptimised", "reader", "reader-docs"],
     };
     let mut total_calls = 0u64;
     let mut total_inputs = 0u64;
@@ -489,7 +510,7 @@ pub fn run(ctx: &Ctx) {
         let jobs = (ctx.threads as u64 * 4).min(n.max(1));
         let per = n.div_ceil(jobs);
         let ranges: Vec<(u64, u64)> = (0..jobs).map(|j| (j * per, ((j + 1) * per).min(n))).filter(|(a, b)| a < b).collect();
-        let step = (per / 50).max(1);
+        let step = if part == "depth-unoptimised" { 1 } else { (per / 50).max(1) };
         let next = std::sync::atomic::AtomicUsize::new(0);
         let results: std::sync::Mutex<Vec<(u64, u64, ChildOutcome)>> = std::sync::Mutex::new(Vec::new());
         // a job normally takes a few seconds; a child that needs longer than this is treated as hung
@@ -590,6 +611,7 @@ pub fn run(ctx: &Ctx) {
         total_inputs += inputs_done;
         total_nontrivial += part_nontrivial;
         let describe = match part {
+            "depth-unoptimised" => format!("the same nesting depths 1..={} x {} templates with the library compiled at opt-level 0 (largest stack frames), on a 2 MiB stack", MAX_DEPTH, DEPTH_TEMPLATES),
             "depth" => format!("nesting depths 1..={} x {} templates (one name; two alternating names; with attributes; unclosed; nest then repeated sibling; text at every level), each parsed, extended with itself and rendered on a 2 MiB stack", MAX_DEPTH, DEPTH_TEMPLATES),
             "reader" | "reader-docs" => format!("{} under every sequence of BufRead answers (all / 1 / 2 / 3 / 7 bytes, Interrupted, hard I/O error) with <= 2 deviations: {} executions", space(part, tier).map(|s| s.describe()).unwrap_or_default(), part_exec),
             _ => space(part, tier).map(|s| s.describe()).unwrap_or_default(),
@@ -618,7 +640,7 @@ pub fn run(ctx: &Ctx) {
 pub fn replay(ctx: &Ctx, case: &Value) {
     let part = case["part"].as_str().unwrap_or("bytes");
     // replay in a child so that an abort does not take the driver down
-    if part == "depth" || case.get("index").is_some() && case.get("bytes_hex").is_none() {
+    if part == "depth" || part == "depth-unoptimised" || case.get("index").is_some() && case.get("bytes_hex").is_none() {
         let idx = case["index"].as_u64().unwrap_or(0);
         let o = run_child(ctx.tier, part, idx, idx + 1, 1, Duration::from_secs(60));
         report_replay(ctx, case, &o);
